@@ -340,12 +340,26 @@ impl TwoState {
             "t_text" => {
                 let a = self.get(arg_usize(op, "a"));
                 let n = arg_usize(op, "n");
+                // Display, possibly called with formatter flags (a column of a table, a sign, a precision)
+                let flags = op.get("fmt").and_then(|v| v.as_str()).unwrap_or("");
+                let show = |x: &dyn std::fmt::Display| -> String {
+                    match flags {
+                        "" => x.to_string(),
+                        "w8" => format!("{:8}", x),
+                        "right" => format!("{:>14}", x),
+                        "center" => format!("{:^11}", x),
+                        "plus" => format!("{:+}", x),
+                        "zero" => format!("{:06}", x),
+                        "alt" => format!("{:#}", x),
+                        _ => panic!("HARNESS: bad fmt"),
+                    }
+                };
                 let (s, vals) = match a {
-                    V::Cube(c) => (c.to_string(), vals_of(n, |m| c.value(m))),
-                    V::Ecube(c) => (c.to_string(), vals_of(n, |m| c.value(m))),
-                    V::Sop(x) => (x.to_string(), vals_of(n, |m| x.value(m))),
-                    V::Esop(x) => (x.to_string(), vals_of(n, |m| x.value(m))),
-                    V::Soes(x) => (x.to_string(), vals_of(n, |m| x.value(m))),
+                    V::Cube(c) => (show(c), vals_of(n, |m| c.value(m))),
+                    V::Ecube(c) => (show(c), vals_of(n, |m| c.value(m))),
+                    V::Sop(x) => (show(x), vals_of(n, |m| x.value(m))),
+                    V::Esop(x) => (show(x), vals_of(n, |m| x.value(m))),
+                    V::Soes(x) => (show(x), vals_of(n, |m| x.value(m))),
                 };
                 out.insert("k".into(), json!(kind_of(a)));
                 out.insert("av".into(), proj(a));
